@@ -26,9 +26,28 @@ use crate::Value;
 ///
 /// The most natural way to traverse a singly linked list is probably by using
 /// the `list_iter` method.
-#[derive(PartialEq)]
 pub struct Cons {
     inner: Box<(Value, Value)>,
+}
+
+impl PartialEq for Cons {
+    /// Compares the chains of cells iteratively, so that the stack use does
+    /// not depend on the length of the lists (or on the optimization level).
+    fn eq(&self, other: &Cons) -> bool {
+        let (mut a, mut b) = (self, other);
+        loop {
+            if a.car() != b.car() {
+                return false;
+            }
+            match (a.cdr(), b.cdr()) {
+                (Value::Cons(next_a), Value::Cons(next_b)) => {
+                    a = next_a;
+                    b = next_b;
+                }
+                (cdr_a, cdr_b) => return cdr_a == cdr_b,
+            }
+        }
+    }
 }
 
 impl Clone for Cons {
